@@ -60,3 +60,7 @@ C('C32', 'determinism across fresh processes/hash seeds + icontract postconditio
 C('C35', 'reference model + icontract postconditions on flags_from_pkgconfig/merge_flags, driven through a stub pkg-config binary first on PATH',
   'Exploration: random package lists and token sequences (prefixed, look-alike and other tokens, mixed whitespace, empty and very long outputs) and 9 kinds of failing runs (exit status, signal, undecodable output, backslashes, missing/non-executable binary); every keyword list compared with the generator-structured expectation and the text model; failures must raise PkgConfigError only.',
   'Whitespace = ASCII whitespace as pkg-config emits it (tokens with non-ASCII whitespace are only counted); the stub answers exactly the command lines cffi is documented to use.')
+
+C('C24', 'byte-level differential: command line (console script, python -m, in-process run()) vs FFI.emit_c_code() in the same environment/locale',
+  'Exploration: random cdefs/preludes (non-ASCII, CR/CRLF, odd line separators), module names with packages, both subcommands, 8 styles of binding the FFI in exec-python scripts (direct, callable, --ffi-var, subclass, helper modules), file and stdout output, 4 locale environments; exit status and bytes compared; the __main__ block must not run.',
+  'read-sources inputs are compared after universal-newline reading (what the tool and any Python text read do); cases whose reference emit_c_code itself raises are vacuous and counted.')
